@@ -1,6 +1,6 @@
 (* C05 - Sequence order and timestamp order of results agree. *)
 From Coq Require Import ZArith List Bool.
-From V Require Import Model.AttackLTS Model.Skel Proofs.AttackProofs Proofs.SkelProofs Gen.Skel.
+From V Require Import Model.AttackLTS Model.Skel Model.SkelData Proofs.AttackProofs Proofs.SkelProofs Proofs.SectionProofs Gen.Skel.
 Import ListNotations.
 Open Scope Z_scope.
 
@@ -36,10 +36,38 @@ Theorem ts_bounds : forall c s, reachable c s ->
 Proof. intros c s R. destruct (reach_stamps c s R) as [O H N E T]. split; assumption. Qed.
 Print Assumptions ts_bounds.
 
-(* PARTIAL: the composition "critical section (same_section_sound) => the section may be
-   treated as the single AssignSeq step of the LTS (hit_ordered)" is the standard reduction
-   argument for lock-protected sections; it is argued in DESIGN.md, not mechanised. Latency
-   cover (latency >= transport time, end = timestamp + latency) is checked on observations. *)
+(* The reduction from "critical section" to "ordered stamps", mechanised (Model/SkelData.v: the
+   interleaving semantics with a clock that never runs backwards - the environment advances it by
+   any non-negative amount before every step - the shared counter, and what each thread read).
+   For EVERY skeleton the checker accepts, any number of threads, any interleaving and any clock
+   behaviour: the sequence numbers the threads read are pairwise different, and a smaller sequence
+   number comes with an earlier-or-equal timestamp. *)
+Theorem section_orders_stamps : forall p, same_section_ok p = true ->
+  forall n c0 q0 evs s, drun p (dinit n c0 q0) evs = Some s ->
+  (forall t1 t2 q1 q2 x1 x2, sqr s t1 = Some q1 -> sqr s t2 = Some q2 ->
+     tsr s t1 = Some x1 -> tsr s t2 = Some x2 -> q1 < q2 -> x1 <= x2) /\
+  (forall t1 t2 q, sqr s t1 = Some q -> sqr s t2 = Some q -> t1 = t2).
+Proof. exact section_orders_stamps_lemma. Qed.
+Print Assumptions section_orders_stamps.
+
+(* ... in particular for the skeleton regenerated from the current source of Attacker.hit *)
+Theorem hit_stamps_ordered : forall n c0 q0 evs s, drun hit_skel (dinit n c0 q0) evs = Some s ->
+  forall t1 t2 q1 q2 x1 x2, sqr s t1 = Some q1 -> sqr s t2 = Some q2 ->
+    tsr s t1 = Some x1 -> tsr s t2 = Some x2 -> q1 < q2 -> x1 <= x2.
+Proof.
+  intros n c0 q0 evs s R. exact (proj1 (section_orders_stamps hit_skel (proj2 hit_same_section) n c0 q0 evs s R)).
+Qed.
+
+(* non-vacuity: two threads through the section, the second reading the clock later *)
+Example section_run_example :
+  let p := [ALock 1; AClock; ASeqRead; ASeqInc; AUnlock 1] in
+  match drun p (dinit 2 100 0) [(0%nat, 0); (0%nat, 5); (0%nat, 0); (0%nat, 0); (0%nat, 1); (1%nat, 0); (1%nat, 2); (1%nat, 0)] with
+  | Some s => (tsr s 0%nat, sqr s 0%nat, tsr s 1%nat, sqr s 1%nat) = (Some 105, Some 0, Some 108, Some 1)
+  | None => False
+  end.
+Proof. vm_compute. reflexivity. Qed.
+
+(* Latency cover (latency >= transport time, end = timestamp + latency) is checked on observations. *)
 
 Example c05_example : same_section_ok [ALock 1; AClock; ASeqRead; ASeqInc; AUnlock 1] = true /\
                       same_section_ok [AClock; ALock 1; ASeqRead; ASeqInc; AUnlock 1] = false /\
